@@ -8,6 +8,10 @@ TECH = "solver-based bounded model checking of the real code: Kani 0.68 / CBMC 6
 TECH2 = TECH + " + MIR->SMT-LIB interleaving encoder decided by z3 and cvc5"
 
 CLAIMS = {
+ "C01": ("model_checking", TECH, "map level: first-writer-wins under a same-key insertion race (device S3), the racers share one handle, the winner stays readable, keys are (id, type); handles survive unrelated inserts with adversarial relocation of table entries (thorough)",
+         "model table instead of hashbrown; one shard; load-level races and shard selection out of reach (DESIGN.md §6 C01)"),
+ "C02": ("model_checking", TECH, "map level for the sharded and the single-threaded map: get/insert/contains/take/remove/clear delete and return exactly what they name, a foreign id or type touches nothing, everything is dropped exactly once",
+         "model table instead of hashbrown; sequences <= 4 operations; load / load_owned / directory loads through a Source are out of reach"),
  "C03": ("model_checking", TECH, "ErrorKind::or for all kind pairs and folds over <= 3 extensions; Error id/reason chain; FileContent::with_cow over all three representations; load_from_source per outcome shape (thorough only, dropped from the claim where undecided)",
          "Kani/CBMC; model crates; std io::Error / Box<dyn Error> values forgotten (mem::forget) in harnesses; shipped loaders out of scope"),
  "C06": ("model_checking", TECH2, "entry-level reload-id/watcher/global-flag bookkeeping for all sequences of <= 5 operations; update-list precision on the dependency graph kernel (thorough); watcher/increment interleavings (E2)",
@@ -16,6 +20,8 @@ CLAIMS = {
          "parking_lot model: reader/writer exclusion trusted; std-lock build not covered"),
  "C08": ("model_checking", TECH, "monitor discipline of the answer protocol as one-step obligations from symbolic pre-states (who empties/fills the slot must notify; wrong-token callers and a full slot block untouched; tokens unique; reload sends its token then waits), one pass of the real reloader thread, bounded termination of the reverse-dependency visit on look-up cycles",
          "parking_lot::Condvar without spurious wake-ups (documented) and weak fairness assumed; composition of the one-step obligations into deadlock freedom is a pen-and-paper monitor argument (DESIGN.md)"),
+ "C09": ("model_checking", TECH, "a Compound::load failing after 0, 1 or 2 source accesses on a cache with a reloader: the error names the id and carries the loader's error, nothing is cached or registered, cached values keep handle and value, the recording cell is restored; hot_reload returns when the reloader is gone",
+         "panics are outside (Kani is panic=abort); faults inside load_from_source and during reloads are out of reach"),
  "C10": ("model_checking", TECH, "entry kind (dynamic iff reloadable type and reloader present); write on static entries refused; get on dynamic entries refused; cache-level histories (see evidence)",
          "Kani/CBMC; model crates"),
  "C13": ("model_checking", TECH, "drop-exactly-once ledger + CBMC allocator checks (double free, dealloc layout, leak) over entry life cycles for 5 value layouts; TypeId discipline for 8 type pairs; wrong-type requests panic and never return",
@@ -32,6 +38,8 @@ CLAIMS = {
          "Kani's sequential atomics; SC exact for one location"),
 }
 NA = {
+ "C05": "not applicable within reach of solver-based checking: convergence needs load + DepsGraph::insert + reload_untyped in one formula; measured: DepsGraph::insert with one dependency = 740k program steps / no verdict, every harness through a successful load or reload_untyped and every graph harness with >= 2 asset nodes ran out of memory at 32 GB after 40-120 min (TypeId-keyed lookups never constant-fold); the decidable pieces are claimed under C06/C07/C08/C10/C14 (DESIGN.md §6 C05)",
+ "C11": "not applicable within reach of solver-based checking: Directory::load / select_ids go through AnyCache's virtual source (dyn Cache) and Vec<SharedString> sort+dedup; measured: no verdict in 10-15 min for listings of 2 entries, iter/iter_cached additionally need cache.load (out of memory); harnesses kept parked in incrate/C11 (DESIGN.md §6 C11)",
  "C04": "not applicable to solver-based checking of this code: FileSystem = OS syscalls, Zip/Tar = third-party parsers with CRC/inflate/checksum loops, Embedded tables come from a compile-time proc-macro, and all path->id logic runs through std::path which CBMC does not get through even for concrete inputs (DESIGN.md §6 C04)",
  "C12": "not applicable to solver-based checking of this code: id_of_path / path_of_entry / the notify handler are compositions of std::path, OsStr and Path::is_dir (syscall); measured: concrete round trip does not leave CBMC symex in 7 min (DESIGN.md §6 C12)",
 }
@@ -69,7 +77,7 @@ def main():
                 "thorough_cmd": f"./check {pid} --tier thorough",
                 "evidence_file": f"/verif/evidence/{pid}.json",
                 "replay_cmd_template": "./replay-trace {path}",
-                "engine": "E1-kani",
+                "engine": "E1-kani+E2-mir2smt" if pid in ("C06", "C16", "C18") else "E1-kani",
                 "level_claimed": {"category": lvl, "text": text, "design_ref": f"DESIGN.md §6 {pid}"},
                 "level_note": note,
                 "technique": tech,
